@@ -14,7 +14,8 @@ NCPU = int(os.environ.get('VERIF_JOBS', '0')) or (os.cpu_count() or 4)
 
 CLANG = 'clang++-14'
 CLANG_FLAGS = ['-fno-vectorize', '-fno-slp-vectorize', '-fno-unroll-loops', '-fno-exceptions-DUMMY']
-CLANG_FLAGS = ['-fno-vectorize', '-fno-slp-vectorize', '-fno-unroll-loops', '-Wno-everything']
+# sink-common=false: SimplifyCFG must not merge two vf_assert calls of different branches into one call with a phi'd id
+CLANG_FLAGS = ['-fno-vectorize', '-fno-slp-vectorize', '-fno-unroll-loops', '-Wno-everything', '-mllvm', '-simplifycfg-sink-common=false']
 
 _print_lock = threading.Lock()
 def log(*a):
@@ -45,7 +46,7 @@ class Query:
     """One solver query = one harness entry in one configuration."""
     def __init__(self, name, src, entry, defs=None, std='c++17', opt='-O1', unwind=12, unwindset=None, arena=(4, 64),
                  timeout=300, mem_gb=4, object_bits=None, ndebug=True, nonstd=True, hooks=(), note='', expect_reach=None,
-                 symbolic='', bounds=None, miter=None, extra_cbmc=()):
+                 symbolic='', bounds=None, miter=None, extra_cbmc=(), optional_reach=()):
         self.name, self.src, self.entry = name, src, entry
         self.defs = dict(defs or {})
         self.std, self.opt, self.unwind = std, opt, unwind
@@ -59,6 +60,7 @@ class Query:
         self.bounds = bounds or {}
         self.miter = miter     # (std2/opt2/... second configuration) for C16
         self.extra_cbmc = tuple(extra_cbmc)
+        self.optional_reach = set(optional_reach)   # markers that are legitimately unreachable in this partition
     def build_key(self):
         return (self.src, tuple(sorted(self.defs.items())), self.std, self.opt, self.ndebug, self.nonstd, self.hooks,
                 json.dumps(self.miter, sort_keys=True) if self.miter else None)
@@ -537,7 +539,7 @@ class Checker:
                 else: failed.append(dict(kind='assert', id=aid, what='assert %d' % aid, prop=a['props'][0]))
         row.update(cbmc_properties=nprops, asserts={str(k): v['n'] for k, v in asserts.items()}, reach={str(k): v for k, v in reach.items()},
                    failed=failed, bound_hits=bound)
-        unreached = [k for k, v in reach.items() if not v]
+        unreached = [k for k, v in reach.items() if not v and k not in q.optional_reach]
         if q.expect_reach is not None:
             unreached += [k for k in q.expect_reach if k not in reach]
         # one representative per kind of generic failure is enough (a wild write trips dozens of pointer checks)
@@ -584,18 +586,29 @@ class Checker:
         decided = [r for r in self.rows if r.get('verdict') == 'decided']
         incon = [r for r in self.rows if r.get('verdict') != 'decided']
         viol = []; unconfirmed = []
+        pnum = int(self.pid[1:])
+        def confirms(f):
+            rp = f.get('replay') or ''
+            # the native run stops at its first failing assertion: any failure of this property (or a sanitizer report / crash /
+            # runaway loop) on the solver's input confirms the counterexample
+            m = re.match(r'ASSERT (-?\d+)', rp)
+            if m:
+                aid = int(m.group(1))
+                if aid < 0: return f['kind'] != 'assert'
+                return aid // 1000 == pnum
+            if rp.startswith(('SANITIZER', 'CRASH', 'STEPLIMIT', 'TIMEOUT')): return True
+            # an IR-level 'unreachable' / terminate in straight-line code may not crash natively: accepted when the generated C
+            # reproduces it deterministically on the same input
+            if f['kind'] == 'env' and (f.get('replay_c') or '').startswith('ASSERT -'): return True
+            return False
         for r in self.rows:
-            for f in r.get('failed', []) or []:
-                if not f.get('relevant'): continue
-                rp = f.get('replay', '')
-                confirmed = False
-                if f['kind'] == 'assert': confirmed = rp == 'ASSERT %d' % f['id'] or rp.startswith('SANITIZER') or rp.startswith('CRASH')
-                else: confirmed = rp.startswith('SANITIZER') or rp.startswith('CRASH') or rp.startswith('ASSERT') or rp.startswith('STEPLIMIT') or rp.startswith('TIMEOUT')
-                # 'unreachable'/terminate/library-assert findings replay natively as crash/abort; an IR-level 'unreachable'
-                # in straight-line code may not crash natively: reported when the generated C reproduces it deterministically
-                if not confirmed and f['kind'] == 'env' and f.get('replay_c', '').startswith('ASSERT -'):
-                    confirmed = True
-                (viol if confirmed else unconfirmed).append((r, f))
+            rel = [f for f in (r.get('failed') or []) if f.get('relevant')]
+            if not rel: continue
+            tried = [f for f in rel if 'replay' in f]
+            ok = [f for f in tried if confirms(f)]
+            if ok: viol.append((r, ok[0]))
+            else:
+                for f in (tried or rel[:1]): unconfirmed.append((r, f))
         os.makedirs(os.path.join(VERIF, 'replays', self.pid), exist_ok=True)
         lines = []
         n = 0
